@@ -24,7 +24,11 @@ def run(chk):
     cs = CaseSet("c01")
     plan = []   # oracle plan: dicts referencing answer indices
     for wi in range(nworlds):
-        wj, sph = area_world(rng)
+        if wi % 4 == 3:
+            from worlds import any_world
+            wj, sph = any_world(rng, lines=0.6)        # slabs and faults too (the models that call back the world temperature among them)
+        else:
+            wj, sph = area_world(rng)
         slot = cs.add_world(wj)
         twin = cs.add_world(wj)          # the same file loaded twice: another world alive in the process
         history = []
@@ -60,6 +64,43 @@ def run(chk):
         # history: repeat the first queries after all the others
         for (add, pos, d, ps, ib) in history[:4]:
             plan.append({"repeat": add(slot, pos, d, ps), "of": ib})
+    # aimed at state kept between queries inside a feature: a slab along the y axis whose temperature changes along strike
+    # (two sections) and whose water content is computed from the temperature of the whole world; two consecutive queries
+    # differ in the along-strike coordinate only (the same depth and the same distances from the slab surface); the second
+    # must be answered as a fresh world answers it
+    from wbgen import Gen
+    from qgen import TOP
+    gg = Gen(rng)
+    for wi in range(6 if chk.tier == "quick" else 60):
+        x0 = float(round(rng.uniform(-3e5, 3e5)))
+        side = rng.choice([-1.0, 1.0])
+        dip = float(rng.choice([30, 45, 60]))
+        tm = gg.tian_model(slab=True)
+        tm["compositions"] = [0]
+        tm.pop("operation", None)
+        tm.pop("max distance slab top", None)
+        lf = {"model": "subducting plate", "name": "strike", "coordinates": [[x0, -4e5], [x0, 4e5]], "dip point": [x0 + side * 1e6, 0.0],
+              "segments": [{"length": 4e5, "thickness": [1e5], "angle": [dip]}],
+              "temperature models": [{"model": "uniform", "temperature": float(round(rng.uniform(500, 800)))}],
+              "composition models": [tm],
+              "sections": [{"coordinate": 1, "segments": [{"length": 4e5, "thickness": [1e5], "angle": [dip]}],
+                            "temperature models": [{"model": "uniform", "temperature": float(round(rng.uniform(1000, 1400)))}]}]}
+        wj = {"version": "1.1", "features": [lf]}
+        slot = cs.add_world(wj)
+        fresh = cs.add_world(wj)
+        import math
+        for qi in range(4):
+            al = rng.uniform(0.1, 0.8) * 4e5
+            off = rng.uniform(0.1, 0.9) * 1e5
+            th = math.radians(dip)
+            u = al * math.cos(th) - off * math.sin(th)
+            d = float(round(al * math.sin(th) + off * math.cos(th)))
+            xa = x0 + side * float(round(u))
+            ya, yb = float(round(rng.uniform(-3.5e5, -1e5))), float(round(rng.uniform(1e5, 3.5e5)))
+            ps = [[2, 0, 0], [1, 0, 0], [4, 0, 0]]
+            cs.p3(slot, (xa, ya, TOP - d), d, ps)
+            ib = cs.p3(slot, (xa, yb, TOP - d), d, ps)
+            plan.append({"repeat": cs.p3(fresh, (xa, yb, TOP - d), d, ps), "of": ib})
     impl, model = cs.run()
     chk.evaluations = len(impl)
     # --- correspondence: model vs implementation, bit for bit (libm paths: exp only) ---------------
